@@ -19,6 +19,9 @@ type AggrPlanField struct {
 	FuncExprs []*FunctionCallExpr
 	Funcs     []AggrFunction
 	Value     Column
+	// First is the pair that opened the group: what a field name standing next to
+	// an aggregate call (`sum(n) + n`) is evaluated on when the group's row is built
+	First KVPair
 }
 
 type AggregatePlan struct {
@@ -294,6 +297,16 @@ func (a *AggregatePlan) updateRowAggrFunc(row []*AggrPlanField, kvp KVPair, ctx 
 	return nil
 }
 
+// execGroupExpr evaluates a select field that holds aggregate calls once their results
+// are known. Field names next to the calls are evaluated on the group's first pair, with
+// nothing left in the context from the pairs scanned after it.
+func (a *AggregatePlan) execGroupExpr(col *AggrPlanField, ctx *ExecuteCtx) (any, error) {
+	if ctx != nil {
+		ctx.Clear()
+	}
+	return col.Expr.Execute(col.First, ctx)
+}
+
 func (a *AggregatePlan) createAggrRow(kvp KVPair, ctx *ExecuteCtx) ([]*AggrPlanField, error) {
 	row := make([]*AggrPlanField, len(a.aggrFields))
 	for i, r := range a.aggrFields {
@@ -316,6 +329,8 @@ func (a *AggregatePlan) createAggrRow(kvp KVPair, ctx *ExecuteCtx) ([]*AggrPlanF
 				return nil, err
 			}
 			col.Value = exprResult
+		} else {
+			col.First = NewKVP(append([]byte{}, kvp.Key...), append([]byte{}, kvp.Value...))
 		}
 		row[i] = col
 	}
@@ -422,7 +437,7 @@ func (a *AggregatePlan) batch(ctx *ExecuteCtx) ([][]Column, error) {
 					}
 					col.FuncExprs[i].Result = val
 				}
-				row[i], err = col.Expr.Execute(NewKVP(nil, nil), ctx)
+				row[i], err = a.execGroupExpr(col, ctx)
 				if err != nil {
 					return nil, err
 				}
@@ -490,7 +505,7 @@ func (a *AggregatePlan) next(ctx *ExecuteCtx) ([]Column, error) {
 				}
 				col.FuncExprs[i].Result = val
 			}
-			row[i], err = col.Expr.Execute(NewKVP(nil, nil), ctx)
+			row[i], err = a.execGroupExpr(col, ctx)
 			if err != nil {
 				return nil, err
 			}
